@@ -41,7 +41,7 @@ export const STD_MODULES = {
   'probe:C0': { default: { k: 'comp', id: 'C0' } },
   'probe:lib': {
     N1: { k: 'comp', id: 'N1' }, N2: { k: 'fcomp', id: 'N2' },
-    hA: { k: 'fn', id: 'hA' }, hB: { k: 'fn', id: 'hB' }, hC: { k: 'fn', id: 'hC' },
+    hA: { k: 'fn', id: 'hA' }, hB: { k: 'fn', id: 'hB' }, hC: { k: 'fn', id: 'hC' }, hS: { k: 'fn', id: 'hS' },
     vA: { k: 'sent', id: 'vA' }, vB: { k: 'sent', id: 'vB' },
   },
   'probe:ns': {
